@@ -58,4 +58,9 @@ def main(rep: Report, replay: dict | None, which=("A", "C", "B"), pair=False) ->
         from .. import ctor_replay
 
         ctor_replay.run(rep)
+        if rep.tier == "thorough":
+            from .. import apalache
+
+            # PadDims (RenderIter.tla / Padding.tla) for ALL integers, not only the enumerated ones
+            apalache.check_inv(rep, "Apa_PadDims.tla", "Laws", "PadDims-laws-unbounded")
     rep.exhaustive = False
